@@ -92,6 +92,79 @@ macro_rules! cast_case {
     }};
 }
 
+macro_rules! topn_case {
+    ($ty:ty, $c:ty, $t:expr) => {{
+        let n: usize = num($t[0]);
+        let mut sp = Scratchpad::new(4, HashMap::new());
+        let mut op = top_n::TopN::<$ty, $c> { input: br(0), indices: br(1), keys: br(2), n, last_index: 0, c: PhantomData };
+        op.init(0, 16, &mut sp);
+        let mut err = false;
+        for b in &$t[1..] {
+            sp.set(br::<$ty>(0), vec_of::<$ty>(b));
+            if op.execute(true, &mut sp).is_err() { err = true; }
+        }
+        op.finalize(&mut sp);
+        let out = sp.get(br::<usize>(1)).to_vec();
+        Some(format!("{} {}", if err { "err" } else { "ok" }, fmt_vec(&out)))
+    }};
+}
+
+macro_rules! sort_by_case {
+    ($ty:ty, $c:ty, $stable:expr, $t:expr, $nullable:expr) => {{
+        let rank = vec_of::<$ty>($t[0]);
+        let n = rank.len();
+        let mut sp = Scratchpad::new(4, HashMap::new());
+        sp.set(br::<usize>(1), (0..n).collect());
+        let res = if $nullable {
+            sp.set_nullable(br::<Nullable<$ty>>(0), rank, vec_of::<u8>($t[1]));
+            let mut op = sort_by::SortByNullable::<$ty, $c> { ranking: br(0), indices: br(1), output: br(2), stable: $stable, c: PhantomData };
+            op.init(0, 16, &mut sp);
+            op.execute(false, &mut sp)
+        } else {
+            sp.set(br::<$ty>(0), rank);
+            let mut op = sort_by::SortBy::<$ty, $c> { ranking: br(0), indices: br(1), output: br(2), stable: $stable, c: PhantomData };
+            op.init(0, 16, &mut sp);
+            op.execute(false, &mut sp)
+        };
+        let out = sp.get(br::<usize>(2)).to_vec();
+        Some(format!("{} {}", if res.is_err() { "err" } else { "ok" }, fmt_vec(&out)))
+    }};
+}
+
+macro_rules! delta_decode_case {
+    ($ty:ty, $t:expr) => {{
+        let mut sp = Scratchpad::new(3, HashMap::new());
+        let mut op = delta_decode::DeltaDecode::<$ty> { encoded: br(0), decoded: br(1), previous: num($t[0]) };
+        op.init(0, 16, &mut sp);
+        let mut err = false;
+        let mut outs = Vec::new();
+        for b in &$t[1..] {
+            sp.set(br::<$ty>(0), vec_of::<$ty>(b));
+            if op.execute(true, &mut sp).is_err() { err = true; }
+            outs.push(fmt_vec(&sp.get(br::<i64>(1)).to_vec()));
+        }
+        Some(format!("{} {}", if err { "err" } else { "ok" }, outs.join(" ")))
+    }};
+}
+
+macro_rules! fuse_int_nulls_case {
+    ($ty:ty, $t:expr) => {{
+        let off: i64 = num($t[2]);
+        let mut sp = Scratchpad::new(6, HashMap::new());
+        sp.set_nullable(br::<Nullable<$ty>>(0), vec_of::<$ty>($t[0]), vec_of::<u8>($t[1]));
+        let mut op = fuse_nulls::FuseIntNulls::<$ty> { offset: off as $ty, input: br(0), fused: br(1) };
+        op.init(0, 32, &mut sp);
+        let mut err = op.execute(false, &mut sp).is_err();
+        let mut uop = fuse_nulls::UnfuseIntNulls::<$ty> { offset: off as $ty, fused: br(1), data: br(2), present: br(3), unfused: br(4) };
+        uop.init(0, 32, &mut sp);
+        err |= uop.execute(false, &mut sp).is_err();
+        let fused = sp.get(br::<$ty>(1)).to_vec();
+        let data = sp.get(br::<$ty>(2)).to_vec();
+        let present = sp.get(br::<u8>(3)).to_vec();
+        Some(format!("{} {} {} {}", if err { "err" } else { "ok" }, fmt_vec(&fused), fmt_vec(&data), fmt_vec(&present)))
+    }};
+}
+
 pub fn dispatch(k: &str, t: &[&str]) -> Option<String> {
     match k {
         "op_aggregate_max" => aggregate_case!(Aggregate, aggregate::MaxI64, i64, t, false, i64, i64),
@@ -263,6 +336,116 @@ pub fn dispatch(k: &str, t: &[&str]) -> Option<String> {
             let out = sp.get(br::<i64>(1)).to_vec();
             Some(format!("{} {} {}", if res.is_err() { "err" } else { "ok" }, fmt_vec(&out), op.offset))
         }
+        "op_topn_i64_asc" => topn_case!(i64, CmpLessThan, t),
+        "op_topn_i64_desc" => topn_case!(i64, CmpGreaterThan, t),
+        "op_topn_u8_desc" => topn_case!(u8, CmpGreaterThan, t),
+        "op_topn_u32_asc" => topn_case!(u32, CmpLessThan, t),
+        "op_select" => {
+            let mut sp = Scratchpad::new(4, HashMap::new());
+            sp.set(br::<i64>(0), vec_of::<i64>(t[0]));
+            sp.set(br::<usize>(1), vec_of::<usize>(t[1]));
+            let mut op = select::Select::<i64> { input: br(0), indices: br(1), output: br(2) };
+            op.init(0, 16, &mut sp);
+            let res = op.execute(false, &mut sp);
+            let out = sp.get(br::<i64>(2)).to_vec();
+            Some(format!("{} {}", if res.is_err() { "err" } else { "ok" }, fmt_vec(&out)))
+        }
+        "op_select_nullable" => {
+            let mut sp = Scratchpad::new(6, HashMap::new());
+            sp.set_nullable(br::<Nullable<i64>>(0), vec_of::<i64>(t[0]), vec_of::<u8>(t[2]));
+            sp.set(br::<usize>(1), vec_of::<usize>(t[1]));
+            let mut op = select::SelectNullable::<i64> { input: br(0), indices: br(1), output: br(2) };
+            op.init(0, 16, &mut sp);
+            let res = op.execute(false, &mut sp);
+            let (out, pres) = sp.get_nullable(br::<Nullable<i64>>(2));
+            let n = out.len();
+            Some(format!("{} {} {}", if res.is_err() { "err" } else { "ok" }, fmt_vec(&out), fmt_vec(&pres[..std::cmp::min(pres.len(), (n + 7) / 8)])))
+        }
+        "op_sort_by_i64_asc_stable" => sort_by_case!(i64, CmpLessThan, true, t, false),
+        "op_sort_by_u8_desc_unstable" => sort_by_case!(u8, CmpGreaterThan, false, t, false),
+        "op_sort_by_i64_desc_stable" => sort_by_case!(i64, CmpGreaterThan, true, t, false),
+        "op_sort_by_u32_asc_unstable" => sort_by_case!(u32, CmpLessThan, false, t, false),
+        "op_sort_by_nullable_i64_asc_stable" => sort_by_case!(i64, CmpLessThan, true, t, true),
+        "op_sort_by_nullable_u8_desc_unstable" => sort_by_case!(u8, CmpGreaterThan, false, t, true),
+        "op_sort_by_nullable_i64_desc_stable" => sort_by_case!(i64, CmpGreaterThan, true, t, true),
+        "op_sort_by_nullable_u32_asc_unstable" => sort_by_case!(u32, CmpLessThan, false, t, true),
+        "op_delta_decode_u8" => delta_decode_case!(u8, t),
+        "op_delta_decode_u16" => delta_decode_case!(u16, t),
+        "op_delta_decode_u32" => delta_decode_case!(u32, t),
+        "op_delta_decode_i64" => delta_decode_case!(i64, t),
+        "op_bitpack_roundtrip" => {
+            let w: u8 = num(t[2]);
+            let w2: u8 = num(t[3]);
+            let mut sp = Scratchpad::new(6, HashMap::new());
+            sp.set(br::<i64>(0), vec_of::<i64>(t[0]));
+            sp.set(br::<i64>(1), vec_of::<i64>(t[1]));
+            let mut op = parameterized_vec_vec_int_op::ParameterizedVecVecIntegerOperator::<parameterized_vec_vec_int_op::BitShiftLeftAdd> { lhs: br(0), rhs: br(1), output: br(2), parameter: w as i64, op: PhantomData };
+            op.init(0, 16, &mut sp);
+            let mut err = op.execute(false, &mut sp).is_err();
+            let mut u1 = bit_unpack::BitUnpackOperator { input: br(2), output: br(3), shift: 0, width: w };
+            u1.init(0, 16, &mut sp);
+            err |= u1.execute(false, &mut sp).is_err();
+            let mut u2 = bit_unpack::BitUnpackOperator { input: br(2), output: br(4), shift: w, width: w2 };
+            u2.init(0, 16, &mut sp);
+            err |= u2.execute(false, &mut sp).is_err();
+            let lo = sp.get(br::<i64>(3)).to_vec();
+            let hi = sp.get(br::<i64>(4)).to_vec();
+            Some(format!("{} {} {}", if err { "err" } else { "ok" }, fmt_vec(&lo), fmt_vec(&hi)))
+        }
+        "op_fuse_nulls_i64" => {
+            let mut sp = Scratchpad::new(4, HashMap::new());
+            sp.set_nullable(br::<Nullable<i64>>(0), vec_of::<i64>(t[0]), vec_of::<u8>(t[1]));
+            let mut op = fuse_nulls::FuseNullsI64 { input: br(0), fused: br(1) };
+            op.init(0, 32, &mut sp);
+            let res = op.execute(false, &mut sp);
+            let out = sp.get(br::<i64>(1)).to_vec();
+            Some(format!("{} {}", if res.is_err() { "err" } else { "ok" }, fmt_vec(&out)))
+        }
+        "op_unfuse_nulls_i64" => {
+            let mut sp = Scratchpad::new(4, HashMap::new());
+            sp.set(br::<i64>(0), vec_of::<i64>(t[0]));
+            let mut op = fuse_nulls::UnfuseNullsI64 { fused: br(0), present: br(1), unfused: br(2) };
+            let res = op.execute(false, &mut sp);
+            let out = sp.get(br::<u8>(1)).to_vec();
+            Some(format!("{} {}", if res.is_err() { "err" } else { "ok" }, fmt_vec(&out)))
+        }
+        "op_compact_nullable" | "op_compact_with_nullable" | "op_compact_nullable_nullable" => {
+            let data = vec_of::<i64>(t[0]);
+            let select = vec_of::<u8>(t[1]);
+            let mut sp = Scratchpad::new(6, HashMap::new());
+            let res;
+            if k == "op_compact_nullable" {
+                sp.set_nullable(br::<Nullable<i64>>(0), data, vec_of::<u8>(t[2]));
+                sp.set(br::<u8>(1), select);
+                let mut op = compact_nullable::CompactNullable::<i64, u8> { data: br(0), select: br(1), compacted: br(2) };
+                op.init(0, 16, &mut sp);
+                res = op.execute(false, &mut sp);
+            } else if k == "op_compact_with_nullable" {
+                sp.set(br::<i64>(0), data);
+                sp.set_nullable(br::<Nullable<u8>>(1), select, vec_of::<u8>(t[3]));
+                let mut op = compact_with_nullable::CompactWithNullable::<i64, u8> { data: br(0), select: br(1), compacted: br(2) };
+                op.init(0, 16, &mut sp);
+                res = op.execute(false, &mut sp);
+            } else {
+                sp.set_nullable(br::<Nullable<i64>>(0), data, vec_of::<u8>(t[2]));
+                sp.set_nullable(br::<Nullable<u8>>(1), select, vec_of::<u8>(t[3]));
+                let mut op = compact_nullable_nullable::CompactNullableNullable::<i64, u8> { data: br(0), select: br(1), compacted: br(2) };
+                op.init(0, 16, &mut sp);
+                res = op.execute(false, &mut sp);
+            }
+            if k == "op_compact_with_nullable" {
+                let out = sp.get(br::<i64>(0)).to_vec();
+                Some(format!("{} {} []", if res.is_err() { "err" } else { "ok" }, fmt_vec(&out)))
+            } else {
+                let (out, pres) = sp.get_nullable(br::<Nullable<i64>>(0));
+                let n = out.len();
+                Some(format!("{} {} {}", if res.is_err() { "err" } else { "ok" }, fmt_vec(&out), fmt_vec(&pres[..std::cmp::min(pres.len(), (n + 7) / 8)])))
+            }
+        }
+        "op_fuse_int_nulls_u8" => fuse_int_nulls_case!(u8, t),
+        "op_fuse_int_nulls_u16" => fuse_int_nulls_case!(u16, t),
+        "op_fuse_int_nulls_u32" => fuse_int_nulls_case!(u32, t),
+        "op_fuse_int_nulls_i64" => fuse_int_nulls_case!(i64, t),
         _ => None,
     }
 }
